@@ -261,9 +261,11 @@ func genPorts(p picker, budget int, chunkedPct int) []portRange {
 	var rs []portRange
 	if p.pct("chunked", chunkedPct) {
 		// more than 200 ranges so that the scan is split into chunks; single ports to stay cheap
+		// (not clamped by the probe budget: a chunked scan needs more than 200 ranges; callers give
+		// such scans a single address)
 		n := 201 + p.n("nranges", 260)
-		if n > budget {
-			n = budget
+		if p.pct("chunkedge", 40) {
+			n = []int{201, 399, 400, 401, 600}[p.n("chunkedgen", 5)] // around multiples of the chunk size
 		}
 		start := 1 + p.n("start", 60000)
 		step := 1 + p.n("step", 3)
@@ -273,6 +275,14 @@ func genPorts(p picker, budget int, chunkedPct int) []portRange {
 				lo = 65535 - (i % 1000)
 			}
 			rs = append(rs, portRange{lo, lo})
+		}
+		return rs
+	}
+	if chunkedPct > 0 && p.pct("exactly200", 2) {
+		// exactly one full chunk
+		start := 1 + p.n("start200", 60000)
+		for i := 0; i < 200; i++ {
+			rs = append(rs, portRange{start + i, start + i})
 		}
 		return rs
 	}
